@@ -4,7 +4,7 @@ use std::collections::{BTreeMap, BTreeSet};
 use serde_json::Value;
 use simcore::Outcome;
 
-use crate::{net::SimNet, qlogcap::Captured};
+use crate::{Case, CloseKind, Profile, RunLog, Side, net::SimNet, qlogcap::Captured};
 
 pub struct PacketLog {
     /// (packet type, packet number) -> frames as logged
@@ -67,10 +67,18 @@ fn norm_frames(frames: &Value) -> Vec<String> {
 
 /// C06 (system level): what one endpoint assembled is what the other recovered, nothing else is accepted.
 pub fn check_packet_roundtrip(out: &mut Outcome, cap: &Captured) {
-    let client = packet_log(&cap.side(false));
-    let server = packet_log(&cap.side(true));
-    out.stats.add("qlog_events", (client.events + server.events) as u64);
-    for (who, snd, rcv) in [("server", &client, &server), ("client", &server, &client)] {
+    // the peer's sent packets (all its connection objects together) vs what each connection object processed
+    let all = |server: bool| -> Vec<qevent::Event> { cap.side(server).iter().map(|(_, e)| e.clone()).collect() };
+    let client_all = packet_log(&all(false));
+    let server_all = packet_log(&all(true));
+    out.stats.add("qlog_events", (client_all.events + server_all.events) as u64);
+    let client_traces: Vec<PacketLog> = cap.by_trace(false).iter().map(|t| packet_log(t)).collect();
+    let server_traces: Vec<PacketLog> = cap.by_trace(true).iter().map(|t| packet_log(t)).collect();
+    if server_traces.len() > 1 {
+        out.stats.bump("probe.second_server_connection_object");
+    }
+    let pairs: Vec<(&str, &PacketLog, &PacketLog)> = server_traces.iter().map(|r| ("server", &client_all, r)).chain(client_traces.iter().map(|r| ("client", &server_all, r))).collect();
+    for (who, snd, rcv) in pairs {
         let mut seen: BTreeSet<(String, u64)> = BTreeSet::new();
         for (ty, pn, frames) in &rcv.rcvd {
             let key = (ty.clone(), *pn);
@@ -105,5 +113,262 @@ pub fn check_amplification(out: &mut Outcome, net: &SimNet) {
     }
     if g.amp_blocked_sends > 0 {
         out.stats.add("probe.sends_at_amplification_limit", g.amp_blocked_sends);
+    }
+}
+
+fn side_of(actor: &str) -> Option<usize> {
+    let a = actor.strip_prefix("bg.").unwrap_or(actor);
+    if a.starts_with("c.") {
+        Some(0)
+    } else if a.starts_with("s.") {
+        Some(1)
+    } else {
+        None
+    }
+}
+
+fn op_class(actor: &str) -> String {
+    let a = actor.strip_prefix("bg.").unwrap_or(actor);
+    let op = a.split('.').nth(1).unwrap_or("op");
+    op.trim_end_matches(|c: char| c.is_ascii_digit()).to_string()
+}
+
+/// C17: closing or failing a connection ends every pending operation; idle timeout.
+pub fn check_termination(out: &mut Outcome, case: &Case, l: &RunLog, net: &SimNet, who_closes: &[usize], release_bound_ms: u64, now_ms: u64) {
+    let names = ["client", "server"];
+    let fault_free = case.tape.is_empty() && case.tape.blackhole_from == [None, None];
+    let idle_eff = [case.client.idle_ms, case.server.idle_ms].into_iter().filter(|i| *i > 0).min().unwrap_or(0) as u64;
+    let rtt = (case.net.latency_ms[0] + case.net.latency_ms[1] + 2 * case.net.jitter_ms) as u64;
+    // (a) a local close terminates at once
+    for &i in who_closes {
+        if let Some(tc) = l.close_called_at[i] {
+            match &l.terminated_at[i] {
+                Some((t, _)) if *t <= tc + 100 => {}
+                other => out.violate("close-not-terminated", "local", format!("{}: close() called at {tc} ms, terminated() {:?}", names[i], other), tc),
+            }
+            // the peer learns through the CONNECTION_CLOSE (fault-free network) or through its idle timer
+            let p = 1 - i;
+            let peer_exists = if p == 1 { l.finished.contains_key("s.accept_conn") } else { true };
+            if peer_exists && l.close_called_at[p].is_none() {
+                let deadline = if fault_free { Some(tc + 5_000 + 4 * rtt) } else if idle_eff > 0 { Some(tc + idle_eff + 30_000) } else { None };
+                if let Some(d) = deadline {
+                    if d < now_ms {
+                        match &l.terminated_at[p] {
+                            Some((t, _)) if *t <= d => {}
+                            other => out.violate("close-not-terminated", "peer", format!("{} closed at {tc} ms; {} terminated() {:?}, expected by {d} ms (fault-free {fault_free}, idle {idle_eff} ms)", names[i], names[p], other), tc),
+                        }
+                    }
+                }
+            }
+        }
+    }
+    // (b) every operation of an endpoint is released within the bound after it terminated
+    for i in 0..2 {
+        let Some((t_term, kind)) = &l.terminated_at[i] else { continue };
+        if t_term + release_bound_ms >= now_ms {
+            continue; // not enough time observed
+        }
+        for (actor, started) in &l.started {
+            if side_of(actor) != Some(i) || actor == "s.accept_conn" {
+                continue;
+            }
+            let released = l.finished.get(actor).map(|(t, _, _)| *t);
+            let late = match released {
+                None => true,
+                Some(t) => t > t_term + release_bound_ms && *started <= *t_term,
+            };
+            if late {
+                out.violate("pending-not-released", op_class(actor), format!("{}: connection terminated at {t_term} ms ({kind}) but {actor} (started at {started} ms) was released at {released:?} (bound {release_bound_ms} ms)", names[i]), *t_term);
+            }
+        }
+        // (c) the terminating error is fixed: parked operations report the same kind
+        for (actor, (_, _, detail)) in &l.finished {
+            if side_of(actor) != Some(i) || !actor.contains("hang_") {
+                continue;
+            }
+            if actor.contains("Handshaked") && detail == "ok" {
+                continue;
+            }
+            if detail != kind && detail != "exhausted" {
+                out.violate("error-changed", op_class(actor), format!("{}: terminated() reported {kind} but {actor} failed with {detail}", names[i]), *t_term);
+            }
+        }
+    }
+    // (f) idle timeout
+    if case.close == CloseKind::Idle && fault_free && case.profile == Profile::Bounded && l.handshaked_at[0].is_some() && l.handshaked_at[1].is_some() {
+        let g = net.inner.lock().unwrap();
+        if idle_eff == 0 {
+            for i in 0..2 {
+                if let Some((t, k)) = &l.terminated_at[i] {
+                    out.violate("idle-disabled-fired", "", format!("{}: both sides advertise max_idle_timeout 0 but the connection terminated at {t} ms ({k})", names[i]), *t);
+                }
+            }
+        } else {
+            // the endpoint that gives up first does so because of its own timer
+            let first = (0..2).filter_map(|i| l.terminated_at[i].as_ref().map(|(t, k)| (*t, i, k.clone()))).min();
+            match first {
+                None => out.violate("idle-late", "never", format!("no traffic after {} ms, negotiated idle timeout {idle_eff} ms, but neither endpoint terminated by {now_ms} ms", g.last_activity_ms[0].max(g.last_activity_ms[1])), now_ms),
+                Some((t, i, k)) => {
+                    let last_rx = g.last_delivered_ms[i];
+                    let last_any = g.last_activity_ms[i].min(t);
+                    if t + 20 < last_rx + idle_eff {
+                        out.violate("idle-early", "", format!("{}: terminated at {t} ms ({k}), last packet received at {last_rx} ms, negotiated idle timeout {idle_eff} ms", names[i]), t);
+                    }
+                    if t > last_any + idle_eff + 15_000 + 6 * rtt {
+                        out.violate("idle-late", "", format!("{}: terminated at {t} ms ({k}), last activity at {last_any} ms, negotiated idle timeout {idle_eff} ms", names[i]), t);
+                    }
+                    out.stats.bump("probe.idle_timeout_observed");
+                }
+            }
+        }
+    }
+    if l.close_called_at.iter().any(|c| c.is_some()) {
+        out.stats.bump("probe.close_called");
+    }
+    if l.finished.keys().any(|k| k.contains("hang_")) {
+        out.stats.bump("probe.parked_op_released");
+    }
+}
+
+/// C17 over the captured qlog: state order and silence after closing.
+pub fn check_close_qlog(out: &mut Outcome, cap: &Captured) {
+    fn rank(s: &str) -> u32 {
+        match s {
+            "attempted" => 1,
+            "peer_validated" => 2,
+            "handshake_started" => 3,
+            "early_write" => 4,
+            "handshake_complete" | "handshake_completed" => 5,
+            "handshake_confirmed" => 6,
+            "closing" => 7,
+            "draining" => 8,
+            "closed" => 9,
+            _ => 0,
+        }
+    }
+    for (who, server) in [("client", false), ("server", true)] {
+      for trace in cap.by_trace(server) {
+        let mut last = 0;
+        let mut closing = false;
+        for e in trace.iter() {
+            let v = serde_json::to_value(e).unwrap_or_default();
+            let name = v["name"].as_str().unwrap_or("");
+            if name.ends_with(":connection_state_updated") {
+                let st = v["data"]["new"].as_str().unwrap_or("?");
+                let r = rank(st);
+                if r != 0 && r <= last {
+                    out.violate("state-regressed", st.to_string(), format!("{who}: connection state moved to {st} after a state of rank {last}"), 0);
+                }
+                if r != 0 {
+                    last = r;
+                }
+                closing |= r >= 7;
+            } else if closing && name.ends_with(":packet_sent") {
+                for f in v["data"]["frames"].as_array().map(|a| a.as_slice()).unwrap_or(&[]) {
+                    let ty = f["frame_type"].as_str().unwrap_or("?");
+                    // the statement speaks of application data: stream and datagram payload
+                    if matches!(ty, "stream" | "datagram") {
+                        out.violate("data-after-close", ty.to_string(), format!("{who}: sent a {ty} frame after entering the closing state"), 0);
+                    }
+                }
+            }
+        }
+      }
+    }
+}
+
+/// C19: datagrams are carried whole or not at all; an accepted datagram is put on the wire.
+pub fn check_datagrams(out: &mut Outcome, case: &Case, l: &RunLog, _net: &SimNet) {
+    if case.dgrams.is_empty() {
+        return;
+    }
+    let fault_free = case.tape.is_empty() && case.tape.blackhole_from == [None, None] && case.net.bandwidth == 0;
+    let rtt = (case.net.latency_ms[0] + case.net.latency_ms[1] + 2 * case.net.jitter_ms) as u64;
+    out.stats.add("datagrams_accepted", l.dgram_sent.len() as u64);
+    out.stats.add("datagrams_delivered", l.dgram_rcvd.len() as u64);
+    if fault_free {
+        for (side, idx, len, t) in &l.dgram_sent {
+            let peer = if *side == Side::Client { Side::Server } else { Side::Client };
+            let pi = (peer == Side::Server) as usize;
+            // only judge datagrams that had time to arrive before either endpoint went away
+            let end = [l.terminated_at[0].as_ref().map(|x| x.0), l.terminated_at[1].as_ref().map(|x| x.0), l.close_called_at[0], l.close_called_at[1]].into_iter().flatten().min().unwrap_or(u64::MAX);
+            let hs = l.handshaked_at[pi].unwrap_or(u64::MAX);
+            if t.max(&hs).saturating_add(3_000 + 3 * rtt) >= end {
+                continue;
+            }
+            let got = l.dgram_rcvd.iter().any(|(s, i, _, _)| *s == peer && i == idx);
+            if !got {
+                out.violate("not-on-wire", "", format!("loss-free uncongested run: datagram {idx} ({len} bytes) accepted from the {side:?} at {t} ms was never received by the peer (connection alive until {end} ms)"), *t);
+            } else {
+                out.stats.bump("probe.datagram_roundtrip");
+            }
+        }
+    }
+}
+
+/// C20 oracle B: every captured event serialises to a JSON object with the mandatory qlog fields, parses
+/// back to an equal event, and converts to the legacy (qlog 0.3) form without panicking.
+pub fn check_event_wellformed(out: &mut Outcome, cap: &Captured) {
+    for server in [false, true] {
+        for (_, e) in cap.side(server).iter() {
+            out.stats.bump("events_checked");
+            let v = match serde_json::to_value(e) {
+                Ok(v) => v,
+                Err(err) => {
+                    out.violate("schema", "serialize", format!("event does not serialise: {err}; {e:?}"), 0);
+                    continue;
+                }
+            };
+            let name = v["name"].as_str().unwrap_or("").to_string();
+            let site = name.clone();
+            if !v.is_object() || !v["time"].is_number() || name.is_empty() || !name.contains(':') || !v["data"].is_object() {
+                out.violate("schema", site.clone(), format!("event lacks time / name (category:event) / data: {v}"), 0);
+                continue;
+            }
+            if v["group_id"].is_null() {
+                out.violate("schema", format!("{site}:group_id"), format!("connection event without group_id: {v}"), 0);
+            }
+            let text = serde_json::to_string(e).unwrap_or_default();
+            match serde_json::from_str::<qevent::Event>(&text) {
+                Ok(back) => {
+                    // the time stamp is wall-clock (content only) and a float: excluded from the comparison
+                    let mut v2 = serde_json::to_value(&back).unwrap_or_default();
+                    let mut v1 = v.clone();
+                    for x in [&mut v1, &mut v2] {
+                        if let Some(o) = x.as_object_mut() {
+                            o.remove("time");
+                        }
+                    }
+                    if v2 != v1 {
+                        out.violate("roundtrip", site.clone(), format!("event changes when parsed back: {v} -> {v2}"), 0);
+                    }
+                }
+                Err(err) => out.violate("roundtrip", site.clone(), format!("serialised event does not parse back ({err}): {text}"), 0),
+            }
+            // legacy conversion may refuse (Err) but must not panic; what it yields must serialise
+            if let Ok(le) = qevent::legacy::Event::try_from(e.clone()) {
+                if serde_json::to_string(&le).is_err() {
+                    out.violate("schema", format!("{site}:legacy"), "legacy form does not serialise".to_string(), 0);
+                }
+                out.stats.bump("legacy_converted");
+            }
+        }
+    }
+}
+
+/// The text the shipped LegacySeqLogger wrote: JSON-SEQ records, each a JSON object.
+pub fn check_legacy_text(out: &mut Outcome, files: &[(String, std::sync::Arc<std::sync::Mutex<Vec<u8>>>)]) {
+    for (name, buf) in files {
+        let b = buf.lock().unwrap();
+        for rec in b.split(|c| *c == 0x1e).filter(|r| !r.is_empty()) {
+            out.stats.bump("legacy_records");
+            match serde_json::from_slice::<serde_json::Value>(rec) {
+                Ok(v) if v.is_object() => {}
+                other => {
+                    out.violate("schema", "legacy-record", format!("{name}: JSON-SEQ record is not a JSON object: {:?} ({:?})", String::from_utf8_lossy(&rec[..rec.len().min(120)]), other.err()), 0);
+                    break;
+                }
+            }
+        }
     }
 }
